@@ -183,6 +183,20 @@ where
     }
 }
 
+/// How a checkout relates to the connection attempts of other checkouts for its token.
+#[derive(Debug, Clone, Copy, PartialEq, Eq)]
+pub(crate) enum CheckoutRole {
+    /// Connects on its own, nobody waits for it.
+    Independent,
+
+    /// Announced its (multiplexed) connection attempt to the pool, other checkouts wait for it.
+    Owner,
+
+    /// Waits for the connection attempt of an owner, and only uses its own connector
+    /// if that attempt goes away without producing a connection.
+    Standby { multiplex: bool },
+}
+
 #[pin_project(PinnedDrop)]
 pub(crate) struct Checkout<T, P, B>
 where
@@ -199,9 +213,9 @@ where
     inner: InnerCheckoutConnecting<T, P, B>,
     connection: Option<P::Connection>,
 
-    /// This checkout marked its token as connecting in the pool, and is responsible
+    /// An owner marked its token as connecting in the pool, and is responsible
     /// for clearing that mark (and releasing whoever waits for it) when it goes away.
-    owner: bool,
+    role: CheckoutRole,
     meta: ConnectorMeta,
     #[cfg(debug_assertions)]
     id: CheckoutId,
@@ -235,6 +249,11 @@ where
     fn as_delayed(self: Pin<&mut Self>) -> Option<Self> {
         let mut this = self.project();
 
+        if matches!(this.role, CheckoutRole::Standby { .. }) {
+            // The connection attempt of a standby checkout was never started.
+            return None;
+        }
+
         match this.inner.as_mut().project() {
             CheckoutConnectingProj::ConnectingWithDelayDrop(connector) if connector.is_some() => {
                 tracing::trace!("converting checkout to delayed drop");
@@ -244,7 +263,7 @@ where
                     waiter: Waiting::NoPool,
                     inner: InnerCheckoutConnecting::ConnectingDelayed(connector.take().unwrap()),
                     connection: None,
-                    owner: std::mem::take(this.owner),
+                    role: std::mem::replace(this.role, CheckoutRole::Independent),
                     meta: ConnectorMeta::new(), // New meta to avoid holding spans in the spawned task
                     #[cfg(debug_assertions)]
                     id: *this.id,
@@ -282,7 +301,7 @@ where
             waiter: Waiting::NoPool,
             inner: InnerCheckoutConnecting::Connecting(connector),
             connection: None,
-            owner: false,
+            role: CheckoutRole::Independent,
             meta: ConnectorMeta::new(),
             #[cfg(debug_assertions)]
             id,
@@ -295,7 +314,7 @@ where
         waiter: Receiver<Pooled<P::Connection, B>>,
         connect: Option<Connector<T, P, B>>,
         connection: Option<P::Connection>,
-        owner: bool,
+        role: CheckoutRole,
         config: &Config,
     ) -> Self {
         #[cfg(debug_assertions)]
@@ -313,7 +332,7 @@ where
                 waiter: Waiting::Idle(waiter),
                 inner: InnerCheckoutConnecting::Connected,
                 connection,
-                owner,
+                role,
                 meta,
                 #[cfg(debug_assertions)]
                 id,
@@ -330,10 +349,14 @@ where
             Self {
                 token,
                 pool,
-                waiter: Waiting::Idle(waiter),
+                waiter: if matches!(role, CheckoutRole::Standby { .. }) {
+                    Waiting::Connecting(waiter)
+                } else {
+                    Waiting::Idle(waiter)
+                },
                 inner,
                 connection,
-                owner,
+                role,
                 meta,
                 #[cfg(debug_assertions)]
                 id,
@@ -346,7 +369,7 @@ where
                 waiter: Waiting::Connecting(waiter),
                 inner: InnerCheckoutConnecting::Waiting,
                 connection,
-                owner,
+                role,
                 meta,
                 #[cfg(debug_assertions)]
                 id,
@@ -380,10 +403,49 @@ where
             // Open questions: Should we check the pool for a different connection when the
             // waiter is pending? Probably not, ideally our semantics should keep the pool
             // from containing multiple connections if they can be multiplexed.
-            if let WaitingPoll::Connected(connection) = ready!(this.waiter.as_mut().poll(cx)) {
-                debug!(token=?this.token, "connection recieved from waiter");
+            loop {
+                match ready!(this.waiter.as_mut().poll(cx)) {
+                    WaitingPoll::Connected(connection) => {
+                        debug!(token=?this.token, "connection recieved from waiter");
 
-                return Poll::Ready(Ok(connection));
+                        return Poll::Ready(Ok(connection));
+                    }
+                    WaitingPoll::Closed => {
+                        let CheckoutRole::Standby { multiplex } = *this.role else {
+                            break;
+                        };
+
+                        // The connection attempt this checkout was waiting for went away without
+                        // producing a connection: wait for the one which replaced it, or replace it.
+                        *this.role = CheckoutRole::Independent;
+                        if let Some(mut pool) = this.pool.lock() {
+                            if let Some(connection) = pool.pop(*this.token) {
+                                // A connection was returned to the pool since the release.
+                                trace!(token=?this.token, "connection found in pool");
+                                *this.connection = Some(connection);
+                                this.inner.set(InnerCheckoutConnecting::Connected);
+                                break;
+                            }
+
+                            let (waiter, wait) = pool.take_over(*this.token, multiplex);
+                            if wait {
+                                trace!(token=?this.token, "waiting for the replacement connection");
+                                *this.role = CheckoutRole::Standby { multiplex };
+                                this.waiter.set(Waiting::Connecting(waiter));
+                            } else {
+                                trace!(token=?this.token, "connecting instead of the abandoned attempt");
+                                if multiplex {
+                                    *this.role = CheckoutRole::Owner;
+                                }
+                                this.waiter.set(Waiting::Idle(waiter));
+                            }
+                        } else {
+                            // The pool itself is gone.
+                            return Poll::Ready(Err(ConnectorError::Unavailable));
+                        }
+                    }
+                    WaitingPoll::NotReady => break,
+                }
             }
         }
 
@@ -551,7 +613,7 @@ where
                     tracing::error!(error=%err, "error during delayed drop");
                 }
             });
-        } else if self.owner {
+        } else if self.role == CheckoutRole::Owner {
             // Connection is only cancled when no delayed drop occurs, and only by the
             // checkout which announced it to the pool.
             if let Some(mut pool) = self.pool.lock() {
